@@ -10,9 +10,9 @@ import (
 	"encoding/json"
 	"errors"
 	"flag"
+	"fmt"
 	"os"
 	"os/exec"
-	"fmt"
 	"regexp"
 	"sort"
 	"strings"
@@ -29,10 +29,11 @@ import (
 	"verif/lib/ev"
 	"verif/lib/explore"
 	"verif/lib/loopworld"
-	"verif/lib/xrun"
 	"verif/lib/par"
+	"verif/lib/recvworld"
 	"verif/lib/sched"
 	"verif/lib/world"
+	"verif/lib/xrun"
 )
 
 type viol struct{ Sig, Msg string }
@@ -345,10 +346,10 @@ type result struct {
 }
 
 type violRec struct {
-	Sig    string         `json:"sig"`
-	Msg    string         `json:"msg"`
+	Sig    string          `json:"sig"`
+	Msg    string          `json:"msg"`
 	Prefix []explore.PStep `json:"prefix"`
-	Trace  []string       `json:"trace"`
+	Trace  []string        `json:"trace"`
 }
 
 func runOnce(sc scenario, ctx *explore.Ctx, viols *[]violRec) string {
@@ -472,12 +473,16 @@ func handle(b []byte) []byte {
 
 func main() {
 	flag.Parse()
-	par.ServeIfWorker(map[string]par.Handler{"x": handle, "loop": xrun.Handler(runLoop)})
+	par.ServeIfWorker(map[string]par.Handler{"x": handle, "loop": xrun.Handler(runLoop), "recv": xrun.Handler(runRecv)})
 	if v, ok := ev.ReplayRequested(); ok {
 		var name string
 		var schedule []string
 		if strings.HasPrefix(v.Part, "cancel-sync-loop") {
 			xrun.Replay(v, runLoop)
+			return
+		}
+		if strings.HasPrefix(v.Part, "receiver-tokens") {
+			xrun.Replay(v, runRecv)
 			return
 		}
 		if v.ReplayField("scenario", &name) && v.ReplayField("schedule", &schedule) {
@@ -611,8 +616,29 @@ func main() {
 		xrun.Explore(r, name, xrun.Opts{Kind: "loop", Bound: ev.Pick(r, 2, 3), Budget: 30, Recycle: 4,
 			Param: loopworld.Cfg{Native: native, Cancel: true, ListFaults: true, LoadFaults: true, StoreFaults: 1, Remote2: true, AppPoints: []string{"none"}}})
 	}
+	// the receiver with its downloaders and the shared token pools: no goroutine may wait forever for a token
+	// (an undecodable blob exercises every error path of the downloader)
+	for _, pl := range [][]string{{"b:newest"}, {"b:newest", "c:newest"}} {
+		name := "receiver-tokens/corrupt-" + strings.Join(pl, "+")
+		if r.Expired() {
+			r.AddPart(&ev.Part{Name: name, Engine: "E3", Exhaustive: false, Bound: "not started: time budget used up"})
+			continue
+		}
+		xrun.Explore(r, name, xrun.Opts{Kind: "recv", Bound: ev.Pick(r, 1, 2), Budget: 40, Recycle: 2,
+			Param: recvworld.Cfg{DownloadLimit: 1, DecompressLimit: 1, Instances: []string{"b", "c"}, Corrupt: pl, Faults: r.Thorough(), Polls: 1}})
+	}
 	racePass(r)
 	r.Finish()
+}
+
+func runRecv(param json.RawMessage, ctx *explore.Ctx, viols *[]xrun.Viol) string {
+	var cfg recvworld.Cfg
+	_ = json.Unmarshal(param, &cfg)
+	res := recvworld.Run(cfg, ctx)
+	for _, v := range res.Viols {
+		*viols = append(*viols, xrun.Viol{Sig: v.Sig, Msg: v.Msg})
+	}
+	return res.Outcome
 }
 
 var reRaceFn = regexp.MustCompile(`(?m)^  (github\.com/PowerDNS/lightningstream/[^\s(]+)\(`)
